@@ -276,6 +276,11 @@ def run(ctx):
             v_, at_ = rv_[r['id']]
             if v_.startswith('harness:'):
                 raise tlc.TLCError('harness-level verdict on real transport: %s %s' % (v_, r['meta']))
+            # the peers of this corpus write and go away, nothing else: a read that fails with another exception than EOF /
+            # TIMEOUT is not the environment's doing (the trace specification would take it for a transport fault)
+            rerr = [i for i, e in enumerate(r['ev']) if e['e'] == 'rerr']
+            if rerr:
+                return ['C04:other-exception-instead-of-eof-or-timeout(%s)' % r['ev'][rerr[0]].get('cls', '?')], rerr[0] + 1
             return [x for x in rst_['all'].get(r['id'], [v_]) if x.startswith('C04:')], at_
         suspects = [r for r in routs if own_clauses(r, rv, rst)[0]]
         confirmed = {}
